@@ -124,6 +124,15 @@ fn variable_type_satisfies_argument_type(
     }
 }
 
+/// Verification hook: exposes the private compatibility relation to out-of-tree drivers.
+#[cfg(kani)]
+pub fn verif_variable_type_satisfies_argument_type(
+    supplied_type: &TypeAnnotationDeclaration,
+    target_type: &TypeAnnotationDeclaration,
+) -> bool {
+    variable_type_satisfies_argument_type(supplied_type, target_type)
+}
+
 fn union_variant_matches_scalar_arg(
     union_variant_var: &UnionVariant,
     scalar_arg: EntityNameWrapper,
